@@ -282,6 +282,19 @@ pub fn brotli_compress(data: &[u8], quality: u32) -> Vec<u8> {
     out
 }
 
+/// Same stream content, the encoder being fed `piece` bytes per write (as a writer that is
+/// handed the data piecewise does): another valid encoding of the same bytes
+pub fn brotli_compress_pieces(data: &[u8], quality: u32, piece: usize) -> Vec<u8> {
+    let mut out = Vec::new();
+    {
+        let mut w = brotli::CompressorWriter::new(&mut out, 4096, quality, 22);
+        for p in data.chunks(piece.max(1)) {
+            w.write_all(p).unwrap();
+        }
+    }
+    out
+}
+
 pub fn enc_sizes_footer(sizes: &[u32], last: u32) -> Vec<u8> {
     let mut o = Vec::new();
     o.extend_from_slice(&(sizes.len() as u64).to_le_bytes());
@@ -295,11 +308,15 @@ pub fn enc_sizes_footer(sizes: &[u32], last: u32) -> Vec<u8> {
 }
 
 pub fn enc_compress(k: &K, plain: &[u8], quality: &dyn Fn(usize) -> u32) -> Vec<u8> {
+    enc_compress_pieces(k, plain, quality, usize::MAX)
+}
+
+pub fn enc_compress_pieces(k: &K, plain: &[u8], quality: &dyn Fn(usize) -> u32, write_piece: usize) -> Vec<u8> {
     let mut out = Vec::new();
     let mut sizes = Vec::new();
     let mut last = 0u32;
     for (i, piece) in plain.chunks(k.block as usize).enumerate() {
-        let c = brotli_compress(piece, quality(i));
+        let c = brotli_compress_pieces(piece, quality(i), write_piece);
         sizes.push(c.len() as u32);
         out.extend(c);
         last = piece.len() as u32;
